@@ -109,6 +109,7 @@ package fptower
 
 //@ func E2.MulByElement
 //@ layer ring fp.Element
+//@ option interior
 //@ ensures[value] vec(z) == vscale(old(*y), old(vec(x)))
 //@ ensures[result] result == z
 //@ modifies z
@@ -425,6 +426,7 @@ package fptower
 
 //@ func E24.MulBy014
 //@ layer ring E4
+//@ option interior
 //@ ensures[value] tvec(z) == t12mul(NR_E4, old(tvec(z)), svec(6, 0, old(*c0), 1, old(*c1), 4, old(*c4)))
 //@ ensures[result] result == z
 //@ modifies z
@@ -432,6 +434,7 @@ package fptower
 
 //@ func E24.MulBy01
 //@ layer ring E4
+//@ option interior
 //@ ensures[value] tvec(z) == t12mul(NR_E4, old(tvec(z)), svec(6, 0, old(*c0), 1, old(*c1), 4, 1))
 //@ ensures[result] result == z
 //@ modifies z
